@@ -571,7 +571,7 @@ func runC19Args(k int, rng *Rng) CaseResult {
 	installHooks(lockHooks())
 	defer lockmonReset(false)
 	w := NewWorld("C19", rng, cfg, caseDir(k, "c19a"))
-	w.storeWant = true
+	w.storeWant = false
 	defer w.Cleanup()
 	if !w.OpenCreate() {
 		return w.finish(nil, false, nil)
